@@ -201,7 +201,7 @@ pub fn round(ctx: &Ctx, address: &str, tname: &str, nclients: usize, nbad: usize
 pub fn main(ctx: &Ctx) -> i32 {
     ctx.set_rule("2-64 simultaneous clients on unix and TCP against one listen() server (max_worker_threads 200), each pipelining a random token-tagged sequence at a random depth with random segmentation/delays, beside 0-8 misbehaving peers (idle, half a message, close mid-message, garbage, one byte every 2 ms) that stay open until every well-behaved client is done; distinct = (client count, transport, misbehaviour mix, observed completion order); non-trivial = >=2 clients overlapped in logical time");
     ctx.assume("tokens are globally unique (round, client, index), so a foreign byte is recognisable; OS schedules are sampled, not controlled");
-    let rounds = ctx.tier.pick(120usize, 2000usize);
+    let rounds = ctx.tier.pick(120usize, 6000usize);
     for (ti, &tr) in [Transport::UnixPath, Transport::Tcp].iter().enumerate() {
         let mut server = match Server::start(standard_service(SvcCfg { up: UpMode::Line, ..Default::default() }), tr, ServerCfg { initial: 1, max: 200, idle_timeout: 0, with_stop_flag: true }) {
             Ok(s) => s,
